@@ -13,7 +13,7 @@ from . import c18
 ID = 'C09'
 WORLD = 'gdb'
 LEVEL = 'exploration'
-RUNS = {'quick': 9600}
+RUNS = {'quick': 6400}
 BUDGET_S = {'thorough': 600}
 RULE = ('one evaluation = one simulated GDB session in which closures from client- and server-side connections, sent and '
         'received, arrive in scheduler-chosen order (so every extraction happens with the struct-offset cache cold, warm, and '
